@@ -476,15 +476,23 @@ def find(req):
     r = long_messages(m, int(os.environ.get("VERIF_SEED", "0") or 0)) or wrapper_long(m, cbc_enc)
     if r is not None:
         return bad(*r)
-    for fn, args in ((m._expand_key, (bytes(15),)), (m.aes_ecb_encrypt, (bytes(16), bytes(15))), (m.aes_cbc_encrypt, (bytes(16), bytes(15), bytes(16))),
-                     (m.aes_cbc_decrypt, (bytes(16), bytes(16), bytes(17))), (m._aes_encrypt_block, (bytes(15), key_expansion(bytes(16))))):
+    k16, b16 = bytes(16), bytes(16)
+    wrong = [(m._expand_key, (bytes(15),)), (m._aes_encrypt_block, (bytes(15), key_expansion(k16))), (m._aes_decrypt_block, (bytes(17), key_expansion(k16)))]
+    for badkey in (b"", bytes(15), bytes(17), bytes(20), bytes(33)):
+        wrong += [(m.aes_ecb_encrypt, (badkey, b16)), (m.aes_ecb_decrypt, (badkey, b16)), (m.aes_cbc_encrypt, (badkey, b16, b16)), (m.aes_cbc_decrypt, (badkey, b16, b16))]
+    for baddata in (bytes(1), bytes(15), bytes(17), bytes(31)):
+        wrong += [(m.aes_ecb_encrypt, (k16, baddata)), (m.aes_ecb_decrypt, (k16, baddata)), (m.aes_cbc_encrypt, (k16, b16, baddata)), (m.aes_cbc_decrypt, (k16, b16, baddata))]
+    for badiv in (b"", bytes(15), bytes(17), bytes(32)):
+        wrong += [(m.aes_cbc_encrypt, (k16, badiv, b16)), (m.aes_cbc_decrypt, (k16, badiv, b16)), (m.aes_cbc_encrypt, (k16, badiv, b"")), (m.aes_cbc_decrypt, (k16, badiv, b""))]
+    for fn, args in wrong:
+        shown = {"args": [a.hex() if isinstance(a, bytes) else "round keys" for a in args]}
         try:
             fn(*args)
-            return bad(fn.__name__, {"args": [a.hex() if isinstance(a, bytes) else "round keys" for a in args]}, "ValueError", "returned")
+            return bad(fn.__name__, shown, "ValueError", "returned")
         except ValueError:
             pass
         except Exception as e:  # noqa
-            return bad(fn.__name__, {"args": "wrong lengths"}, "ValueError", type(e).__name__)
+            return bad(fn.__name__, shown, "ValueError", type(e).__name__)
     return {"reproduced": False, "note": f"{tried} key/iv/message triples and all table entries agree with the reference"}
 
 
